@@ -40,7 +40,8 @@ def cases(rng, tier):
         c = toyasmgen.gen_case(rng)
         c.suite = "toy-text"
         yield c
-    # programs that do not fit
+    # a program that fits EXACTLY, then programs that do not fit
+    yield Case("rv-text", [f"asm {rvasmgen.hx(chr(10).join(['nop'] * 4096))}"], None, {"text": "nop*4096", "kind": "fits-exactly"})
     big = "\n".join(["nop"] * 4097)
     yield Case("rv-text", [f"asm {rvasmgen.hx(big)}"], None, {"text": "nop*4097", "kind": "too-big"})
     bigt = "\n".join(["INC"] * 4097)
